@@ -92,6 +92,25 @@ def select(tasks, prefixes=(), props=None, names=()):
 TRACKS = ("MarkerTrack", "EMGTrack", "ForceTorqueTrack", "PlatformData")
 
 
+def _also_covers(task_name):
+    """functions a task proves besides the one it is named after: a round-trip task RT.<T> proves the (write, build) pair
+    against the opaque-segment contract the enclosing block uses (build consumes what write emitted and gives the value
+    back); SW.<T> proves nBytes = what write emits"""
+    out = set()
+    if "pad/bpad/skip/nBytes" in task_name:
+        out.update("basictdf.tdfTypes.TdfType." + a for a in ("pad", "bpad", "skip", "nBytes"))
+    from .symlayout import SPECS
+    from .tasks_codec import WRITE_ATTR, BUILD_ATTR
+    parts = task_name.split(".")
+    if len(parts) >= 2 and parts[0] in ("RT", "SW", "W", "B"):
+        nm = parts[1].split("[")[0]
+        if nm in SPECS:
+            cls = SPECS[nm].cls
+            w, b = cls + "." + WRITE_ATTR.get(nm, "_write"), cls + "." + BUILD_ATTR.get(nm, "_build")
+            out.update({"RT": (w, b), "SW": (w, cls + ".nBytes"), "W": (w,), "B": (b,)}[parts[0]])
+    return out
+
+
 def property_config(pid, tasks):
     """decisive = obligations that decide the property; chain = obligations of a sufficient (layout-based) argument whose
     failure only degrades a clause to 'bounded'; harness = bounded suites on the real code"""
@@ -117,8 +136,15 @@ def property_config(pid, tasks):
     PAIR = ["refused_only_if_explicit_channel_taken", "channel_list_is_a_list", "channel_list_length", "item_list_length", "surviving_channels_unchanged",
             "new_channel_at_its_position", "surviving_items_keep_their_channel_position"]
     callee = {n: None for n in select(tasks, ("SEG.", "DATE."))}
-    callee.update({n: APPEND for n in select(tasks, ("C16.Data3D.add_track", "C16.ForceTorque3D.add_track", "C16.EMG.addSignal"))})
+    callee.update({n: APPEND for n in select(tasks, ("C16.Data3D.add_track", "C16.ForceTorque3D.add_track", "C16.EMG.addSignal")) if "[" not in n})
     callee.update({n: PAIR for n in select(tasks, ("C15.EMG.add[explicit]", "C15.PlatformsCalibration.add[explicit]", "C15.PlatformsData.add[explicit]"))})
+    # the primitive codecs the decoders / track codecs call through contracts: their own tasks close the chain
+    tdf_all = select(tasks, ("TDF.",))
+    bts_io = select(tasks, ("C13.BTSString.",))
+    P["C12"]["decisive"] += [n for n in tdf_all if "bread" in n or ".read(" in n or "skip" in n]
+    P["C05"]["decisive"] += tdf_all + bts_io
+    P["C01"]["decisive"] += [n for n in tdf_all + bts_io if n not in P["C01"]["decisive"]]
+    P["C02"]["decisive"] += [n for n in tdf_all + bts_io if n not in P["C02"]["decisive"]]
     for pid_ in ("C01", "C02", "C06", "C12"):
         P[pid_]["decisive"] = list(dict.fromkeys(P[pid_]["decisive"] + list(callee)))
         P[pid_]["only"] = {n: v for n, v in callee.items() if v is not None}
@@ -400,6 +426,14 @@ def main(argv=None):
         if key not in seen:
             seen.add(key)
             funcs.append(dict(function=o["qualname"], source=o["source"]))
+    # modular chain: every contract a decisive task relied on at a call site, and whether a task of THIS check proves that
+    # function's body against it; the rest is listed as assumed (evidence: assumed_callee_contracts)
+    in_check = list(dict.fromkeys(cfg["decisive"] + cfg.get("chain", [])))
+    proved_here = {by[n]["qualname"] for n in in_check}
+    for n in in_check:
+        proved_here.update(_also_covers(n))
+    used_contracts = sorted({q for n in cfg["decisive"] for q in by[n]["stats"].get("contracts_used", [])})
+    assumed_callees = [q for q in used_contracts if q not in proved_here]
     samples = [dict(obligation=r["name"], task=r["task"], verdict=r["result"], backend=r["backend"], solver_s=r["time"]) for r in obligs[:3] + failing[:3]]
     evidence = dict(
         property_id=pid, tier=tier, seed=seed, level="proof",
@@ -411,10 +445,15 @@ def main(argv=None):
                       chain_obligations=dict(total=sum(len(by[n]["results"]) for n in cfg.get("chain", [])), not_discharged=len(chain_fail)),
                       bounded_standins=standins, canaries_refuted=len(canaries) - len(bad_canaries), canaries=len(canaries),
                       known_findings_hit=[k.get("id") for k, _ in known_hits], samples=samples,
+                      callee_contracts_used=used_contracts, assumed_callee_contracts=assumed_callees,
                       extraction_drops="comments, docstrings, type annotations, f-string text (parts are still evaluated); nothing else: unsupported syntax makes the function out of reach"),
         assumptions=ASSUMPTIONS, wall_s=round(time.time() - t0, 2), violations=len(violations))
-    os.makedirs(os.path.join(VERIF, "evidence"), exist_ok=True)
-    json.dump(evidence, open(os.path.join(VERIF, "evidence", f"{pid}.json"), "w"), indent=1)
+    # evidence/ describes /repo's own tree; a run against another tree (--src: seeded and harmless changes) writes to .scratch/
+    ev_dir = os.path.join(VERIF, "evidence") if os.path.realpath(src) == os.path.realpath("/repo/src") else os.path.join(VERIF, ".scratch", "evidence")
+    if assumed_callees:
+        print(f"NOTE callee contracts relied on without a task of this check proving the callee's body: {assumed_callees} (listed in the evidence as assumed)")
+    os.makedirs(ev_dir, exist_ok=True)
+    json.dump(evidence, open(os.path.join(ev_dir, f"{pid}.json"), "w"), indent=1)
     print(f"{pid}: {discharged}/{len(obligs)} obligations discharged over {len(cfg['decisive'])} functions/tasks ({evidence['coverage']['paths']} paths), "
           f"{len(undecided)} undecided, bounded cases {sum(s.get('cases', 0) or 0 for s in standins)}, wall {evidence['wall_s']}s")
     if crashes or bad_canaries or empty or not harness_ok:
